@@ -26,6 +26,50 @@ def accB (ws : List Nat) : BV → Nat → List Nat → Row × Nat × List Nat
      addL (accB ws r (accB ws l sc bc).2.1 (accB ws l sc bc).2.2).2.2
        (pairLoop ws (accB ws l sc bc).1 (accB ws r (accB ws l sc bc).2.1 (accB ws l sc bc).2.2).1).2)
 
+/-- identities of a list of subtrees -/
+def idsL (cs : List T) : List Nat := (T.nodesL cs).map T.id
+
+/-- the `while True:` loop of one node on the children's lists of sets (`foldKids` without the attribute store) -/
+def foldRows (ws : List Nat) : Row → List Row → Nat → List Nat → Except Err (Row × Nat × List Nat)
+  | left, [], sc, bc => .ok (left, sc, bc)
+  | left, right :: rest, sc, bc =>
+    if shortHit ws left right then .error .indexError else
+    foldRows ws (pairLoop ws left right).1 rest (sc + sumL (pairLoop ws left right).2) (addL bc (pairLoop ws left right).2)
+
+/-- one node, given the lists of sets of its children -/
+def nodeStep (m : Matrix) (ws : List Nat) (x : Option Nat) : List Row → Nat → List Nat → Except Err (Row × Nat × List Nat)
+  | [], sc, bc =>
+    match lookupRow m x with
+    | none => .error .keyError
+    | some row => .ok (row, sc, bc)
+  | [_], _, _ => .error .valueError
+  | r0 :: r1 :: rest, sc, bc => foldRows ws r0 (r1 :: rest) sc bc
+
+mutual
+/-- the down pass of ANY tree as a plain recursion without attribute store: children left to right (the first error in
+    post-order wins), then the node itself -/
+def accT (m : Matrix) (ws : List Nat) : T → Nat → List Nat → Except Err (Row × Nat × List Nat)
+  | .node _ x _ _ cs, sc, bc =>
+    match accTL m ws cs sc bc with
+    | .error e => .error e
+    | .ok (rows, sc', bc') => nodeStep m ws x rows sc' bc'
+def accTL (m : Matrix) (ws : List Nat) : List T → Nat → List Nat → Except Err (List Row × Nat × List Nat)
+  | [], sc, bc => .ok ([], sc, bc)
+  | c :: cs, sc, bc =>
+    match accT m ws c sc bc with
+    | .error e => .error e
+    | .ok (r, sc1, bc1) =>
+      match accTL m ws cs sc1 bc1 with
+      | .error e => .error e
+      | .ok (rs, sc2, bc2) => .ok (r :: rs, sc2, bc2)
+end
+
+/-- the children's stored attributes are the given lists of sets -/
+def Agree (attrs : Attrs) : List T → List Row → Prop
+  | [], [] => True
+  | c :: cs, r :: rs => getAttr attrs c.id = some r ∧ Agree attrs cs rs
+  | _, _ => False
+
 namespace Aux
 
 theorem id_node (i : Nat) (x : Option Nat) (l : Option Frac) (s : Option String) (cs : List T) :
@@ -61,48 +105,173 @@ theorem runNodes_append (m : Matrix) (ws : List Nat) : ∀ (l₁ : List T) (st :
     | error e => rfl
     | ok st' => exact runNodes_append m ws l₁ st' l₂
 
-/-- the machine on the post-order of a viewed tree, started with arbitrary attributes and accumulators -/
-theorem run_post {m : Matrix} {ws : List Nat} {t : T} {bv : BV} (hv : View m t bv) :
-    (ids t).Nodup → ∀ st : St, ∃ st' : St,
-      runNodes m ws st (post t) = .ok st' ∧
-      getAttr st'.attrs t.id = some (accB ws bv st.score st.bychar).1 ∧
-      st'.score = (accB ws bv st.score st.bychar).2.1 ∧
-      st'.bychar = (accB ws bv st.score st.bychar).2.2 ∧
-      (∀ j, j ∉ ids t → getAttr st'.attrs j = getAttr st.attrs j) := by
-  induction hv with
-  | @leaf i x l s row h =>
-    intro _ st
-    refine ⟨{ st with attrs := (i, row) :: st.attrs }, ?_, ?_, rfl, rfl, ?_⟩
-    · simp [post, postL, runNodes, stepNode, T.cs, T.taxon, T.id, h]
-    · simp [T.id, getAttr_cons_self, accB]
-    · intro j hj
-      rw [ids_leaf] at hj
-      exact getAttr_cons_ne (by simpa using hj) _ _
-  | @node i x l s a b ba bb hva hvb iha ihb =>
-    intro hnd st
-    rw [ids_node2] at hnd
-    have ⟨hi, hab⟩ := List.nodup_cons.mp hnd
-    have ⟨hna, hnb, hdisj⟩ := List.nodup_append.mp hab
-    obtain ⟨st1, r1, g1, s1, b1, f1⟩ := iha hna st
-    obtain ⟨st2, r2, g2, s2, b2, f2⟩ := ihb hnb st1
-    have ha_nb : a.id ∉ ids b := fun h => hdisj _ (id_mem_ids a) _ h rfl
-    have g1' : getAttr st2.attrs a.id = some (accB ws ba st.score st.bychar).1 := by
-      rw [f2 _ ha_nb]; exact g1
-    rw [s1, b1] at g2 s2 b2
-    refine ⟨{ attrs := (i, (accB ws (.node ba bb) st.score st.bychar).1) :: st2.attrs,
-              score := (accB ws (.node ba bb) st.score st.bychar).2.1,
-              bychar := (accB ws (.node ba bb) st.score st.bychar).2.2 }, ?_, ?_, rfl, rfl, ?_⟩
-    · have hp : post (.node i x l s [a, b]) = post a ++ (post b ++ [.node i x l s [a, b]]) := by
-        simp [post, postL]
-      rw [hp, runNodes_append, r1]
-      simp only
-      rw [runNodes_append, r2]
-      simp only [runNodes, stepNode, T.cs, id_node, g1', foldKids, g2, s2, b2, accB]
-    · simp [T.id, getAttr_cons_self]
-    · intro j hj
-      rw [ids_node2] at hj
-      simp only [List.mem_cons, List.mem_append, not_or] at hj
-      rw [getAttr_cons_ne hj.1, f2 j hj.2.2, f1 j hj.2.1]
+/-! ### the general refinement: any tree (polytomies, unary nodes, leaves without rows), any matrix, any weights -/
+
+theorem idsL_cons (c : T) (cs : List T) : idsL (c :: cs) = ids c ++ idsL cs := by
+  simp [ids, idsL, T.nodesL]
+
+theorem ids_node (i : Nat) (x : Option Nat) (l : Option Frac) (s : Option String) (cs : List T) :
+    ids (.node i x l s cs) = i :: idsL cs := by
+  simp [ids, idsL, T.nodes, T.id]
+
+theorem foldKids_eq (ws : List Nat) (attrs : Attrs) : ∀ (kids : List T) (rows : List Row) (left : Row) (sc : Nat)
+    (bc : List Nat), Agree attrs kids rows → foldKids ws attrs left kids sc bc = foldRows ws left rows sc bc
+  | [], [], _, _, _, _ => by simp [foldKids, foldRows]
+  | c :: kids, r :: rows, left, sc, bc, h => by
+    simp only [Agree] at h
+    simp only [foldKids, foldRows, h.1]
+    split
+    · rfl
+    · exact foldKids_eq ws attrs kids rows _ _ _ h.2
+  | [], _ :: _, _, _, _, h => by simp [Agree] at h
+  | _ :: _, [], _, _, _, h => by simp [Agree] at h
+
+theorem stepNode_eq (m : Matrix) (ws : List Nat) (st : St) (i : Nat) (x : Option Nat) (l : Option Frac)
+    (s : Option String) : ∀ (cs : List T) (rows : List Row), Agree st.attrs cs rows →
+    stepNode m ws st (.node i x l s cs) =
+      match nodeStep m ws x rows st.score st.bychar with
+      | .error e => .error e
+      | .ok (row, sc, bc) => .ok { attrs := (i, row) :: st.attrs, score := sc, bychar := bc }
+  | [], [], _ => by
+    simp only [stepNode, T.cs, T.taxon, id_node, nodeStep]
+    cases lookupRow m x <;> rfl
+  | [c], [r], _ => by simp [stepNode, T.cs, nodeStep]
+  | c0 :: c1 :: rest, r0 :: r1 :: rrest, h => by
+    simp only [Agree] at h
+    simp only [stepNode, T.cs, id_node, nodeStep, h.1]
+    rw [foldKids_eq ws st.attrs (c1 :: rest) (r1 :: rrest) r0 _ _ (by simp only [Agree]; exact h.2)]
+    cases foldRows ws r0 (r1 :: rrest) st.score st.bychar with
+    | error e => rfl
+    | ok v => obtain ⟨a, b, c⟩ := v; rfl
+  | [], _ :: _, h => by simp [Agree] at h
+  | [_], [], h => by simp [Agree] at h
+  | [_], _ :: _ :: _, h => by simp [Agree] at h
+  | _ :: _ :: _, [], h => by simp [Agree] at h
+  | _ :: _ :: _, [_], h => by simp [Agree] at h
+
+/-- what the machine does on the post-order of `t`, from state `st` -/
+def GoodT (m : Matrix) (ws : List Nat) (st : St) (t : T) : Prop :=
+  (∀ e, accT m ws t st.score st.bychar = .error e → runNodes m ws st (post t) = .error e) ∧
+  (∀ row sc bc, accT m ws t st.score st.bychar = .ok (row, sc, bc) → ∃ st' : St,
+    runNodes m ws st (post t) = .ok st' ∧ getAttr st'.attrs t.id = some row ∧ st'.score = sc ∧ st'.bychar = bc ∧
+    ∀ j, j ∉ ids t → getAttr st'.attrs j = getAttr st.attrs j)
+
+def GoodTL (m : Matrix) (ws : List Nat) (st : St) (cs : List T) : Prop :=
+  (∀ e, accTL m ws cs st.score st.bychar = .error e → runNodes m ws st (postL cs) = .error e) ∧
+  (∀ rows sc bc, accTL m ws cs st.score st.bychar = .ok (rows, sc, bc) → ∃ st' : St,
+    runNodes m ws st (postL cs) = .ok st' ∧ Agree st'.attrs cs rows ∧ st'.score = sc ∧ st'.bychar = bc ∧
+    ∀ j, j ∉ idsL cs → getAttr st'.attrs j = getAttr st.attrs j)
+
+mutual
+/-- **refinement**: the post-order machine with its attribute store equals the plain recursion `accT`, on every tree whose
+    nodes are distinct objects, from every state (in particular whatever attributes the nodes carry) -/
+theorem run_T (m : Matrix) (ws : List Nat) : ∀ (t : T), (ids t).Nodup → ∀ st : St, GoodT m ws st t
+  | .node i x l s cs, hid, st => by
+    rw [ids_node] at hid
+    have ⟨hi, hcs⟩ := List.nodup_cons.mp hid
+    have ih := run_TL m ws cs hcs st
+    have hp : post (.node i x l s cs) = postL cs ++ [.node i x l s cs] := by simp [post]
+    constructor
+    · intro e he
+      rw [hp, runNodes_append]
+      simp only [accT] at he
+      cases hl : accTL m ws cs st.score st.bychar with
+      | error e' =>
+        rw [hl] at he
+        simp only at he
+        cases he
+        rw [ih.1 _ hl]
+      | ok v =>
+        obtain ⟨rows, sc', bc'⟩ := v
+        rw [hl] at he
+        simp only at he
+        obtain ⟨st', hr, hag, hs, hb, _⟩ := ih.2 rows sc' bc' hl
+        rw [hr]
+        simp only [runNodes]
+        rw [stepNode_eq m ws st' i x l s cs rows hag, hs, hb, he]
+    · intro row sc bc hok
+      simp only [accT] at hok
+      cases hl : accTL m ws cs st.score st.bychar with
+      | error e' => rw [hl] at hok; simp at hok
+      | ok v =>
+        obtain ⟨rows, sc', bc'⟩ := v
+        rw [hl] at hok
+        simp only at hok
+        obtain ⟨st', hr, hag, hs, hb, hf⟩ := ih.2 rows sc' bc' hl
+        refine ⟨{ attrs := (i, row) :: st'.attrs, score := sc, bychar := bc }, ?_, ?_, rfl, rfl, ?_⟩
+        · rw [hp, runNodes_append, hr]
+          simp only [runNodes]
+          rw [stepNode_eq m ws st' i x l s cs rows hag, hs, hb, hok]
+        · simp [id_node, getAttr_cons_self]
+        · intro j hj
+          rw [ids_node] at hj
+          simp only [List.mem_cons, not_or] at hj
+          rw [getAttr_cons_ne hj.1, hf j hj.2]
+theorem run_TL (m : Matrix) (ws : List Nat) : ∀ (cs : List T), (idsL cs).Nodup → ∀ st : St, GoodTL m ws st cs
+  | [], _, st => by
+    constructor
+    · intro e he; simp [accTL] at he
+    · intro rows sc bc hok
+      simp only [accTL] at hok
+      cases hok
+      exact ⟨st, by simp [postL, runNodes], by simp [Agree], rfl, rfl, fun _ _ => rfl⟩
+  | c :: cs, hid, st => by
+    rw [idsL_cons] at hid
+    have ⟨hc, hcs, hdisj⟩ := List.nodup_append.mp hid
+    have ihc := run_T m ws c hc st
+    have hp : postL (c :: cs) = post c ++ postL cs := by simp [postL]
+    constructor
+    · intro e he
+      rw [hp, runNodes_append]
+      simp only [accTL] at he
+      cases h1 : accT m ws c st.score st.bychar with
+      | error e' =>
+        rw [h1] at he; simp only at he; cases he
+        rw [ihc.1 _ h1]
+      | ok v =>
+        obtain ⟨r, sc1, bc1⟩ := v
+        rw [h1] at he
+        simp only at he
+        obtain ⟨st1, hr1, hg1, hs1, hb1, hf1⟩ := ihc.2 r sc1 bc1 h1
+        have ihcs := run_TL m ws cs hcs st1
+        rw [hr1]
+        simp only
+        cases h2 : accTL m ws cs sc1 bc1 with
+        | error e'' =>
+          rw [h2] at he; simp only at he; cases he
+          exact ihcs.1 _ (by rw [hs1, hb1]; exact h2)
+        | ok v2 =>
+          obtain ⟨a, b, d⟩ := v2
+          rw [h2] at he; simp at he
+    · intro rows sc bc hok
+      simp only [accTL] at hok
+      cases h1 : accT m ws c st.score st.bychar with
+      | error e' => rw [h1] at hok; simp at hok
+      | ok v =>
+        obtain ⟨r, sc1, bc1⟩ := v
+        rw [h1] at hok
+        simp only at hok
+        obtain ⟨st1, hr1, hg1, hs1, hb1, hf1⟩ := ihc.2 r sc1 bc1 h1
+        have ihcs := run_TL m ws cs hcs st1
+        cases h2 : accTL m ws cs sc1 bc1 with
+        | error e'' => rw [h2] at hok; simp at hok
+        | ok v2 =>
+          obtain ⟨rs, sc2, bc2⟩ := v2
+          rw [h2] at hok
+          simp only [Except.ok.injEq, Prod.mk.injEq] at hok
+          obtain ⟨e1, e2, e3⟩ := hok
+          subst e1 e2 e3
+          obtain ⟨st2, hr2, hag2, hs2, hb2, hf2⟩ := ihcs.2 rs sc2 bc2 (by rw [hs1, hb1]; exact h2)
+          have hcid : c.id ∉ idsL cs := fun h => hdisj _ (id_mem_ids c) _ h rfl
+          refine ⟨st2, ?_, ?_, hs2, hb2, ?_⟩
+          · rw [hp, runNodes_append, hr1]; exact hr2
+          · simp only [Agree]
+            exact ⟨by rw [hf2 _ hcid]; exact hg1, hag2⟩
+          · intro j hj
+            rw [idsL_cons] at hj
+            simp only [List.mem_append, not_or] at hj
+            rw [hf2 j hj.2, hf1 j hj.1]
+end
 
 end Aux
 end DendroModel.C16
